@@ -577,6 +577,11 @@ def run_xref_cases(ctx: C.Ctx, record) -> None:
         res = guarded(load)
         inp = {"op": "xref", "pdf": blob.hex(), "start": start, "model_line": line}
         record("xref", line, res, lambda l: " ".join(str(p) for p in l), inp)
+        if res[0] == "V" and (len(res[1]) > k or len(set(res[1])) != len(res[1])):
+            # C13_work_xref_chain on the implementation: every section is loaded at most once
+            ctx.fail(C.Failure("read_xref_from loads a cross-reference section more than once", inp,
+                               "at most %d sections, each once" % k, "loaded " + " ".join(str(p) for p in res[1]),
+                               {"cls": "budget", "exc": "", "where": "model:xref", "kind": "graph"}))
         ctx.case(("xref", line), k > 1, sample=None, branch="xref:sections=%d" % (len(res[1]) if res[0] == "V" else -1))
 
 
